@@ -250,10 +250,14 @@ fn sym_use(s: &Symbol, st: &mut WalkStats) {
 }
 
 fn hash_finds<'d, E: EndianParse>(sysv: Option<&SysVHashTable<'d, E>>, gnu: Option<&GnuHashTable<'d, E>>, syms: &SymbolTable<'d, E>, strs: &StringTable<'d>, strs_len: usize, c: &mut Choice<'d>, st: &mut WalkStats) {
-    for k in 0..6 {
+    // names of 127, 128, 200 and 4096 bytes (fixed-size stack buffers in a lookup path end somewhere)
+    const LONG: [u8; 4096] = [b'n'; 4096];
+    for k in 0..8 {
         let name: &[u8] = match k {
             0 => b"",
             1 => b"memset",
+            6 => &LONG[..*c.pick(&[127usize, 128, 129, 200, 255, 256, 257, 1024, 4096])],
+            7 => b"memset\0",
             2 | 3 => match strs.get_raw(c.below(strs_len as u64 + 1) as usize) {
                 Ok(s) => s,
                 Err(_) => b"x",
